@@ -106,6 +106,10 @@ def run(ctx):
                 "parallel degree and sign of its column and depends on the corresponding parameter of the replaced element")
     run_cases(ctx, R, cases(), aspects=("units", "base", "par", "dec", "needs", "sign"))
     ctx.require_min(R, 100)
+    # dropping / re-indexing elements is neutral only if the rows of referencing tables are selected by their exact type code
+    from rules import _lints
+    fis = list(ctx.repo.module(GM).functions.values()) + list(ctx.repo.module("pandapower.toolbox.data_modification").functions.values())
+    _lints.et_exact(ctx, "ET-EXACT", fis, minimum=10)
 
 
 def variants(repo):
@@ -126,6 +130,7 @@ def variants(repo):
         V("ext grid angle from voltage", gm, in_function("replace_gen_by_ext_grid", replace_once("net.res_bus.va_degree.at[gen.bus]", "net.res_bus.vm_pu.at[gen.bus]")), "gen-ext_grid:store:net.ext_grid.va_degree"),
         V("load to sgen keeps sign", gm, in_function("replace_pq_elmtype", replace_once("            sign *= -1\n", "            sign *= 1\n")), "pq-load-sgen:store:net.sgen.p_mw"),
         V("limits not swapped", gm, in_function("replace_pq_elmtype", replace_once('["min_p_mw", "max_p_mw", "min_q_mvar", "max_q_mvar"]):', '["max_p_mw", "min_p_mw", "max_q_mvar", "min_q_mvar"]):')), "store:net.sgen.min_p_mw"),
+        V("trafo drop removes switches by code prefix", gm, in_function("drop_trafos", replace_once('(net["switch"]["et"] == et)]', '(net["switch"]["et"].str.startswith(et))]')), "ET-EXACT"),
         # twin
         V("twin: reorder factors", gm, in_function("replace_line_by_impedance", replace_once("rft_pu=line_.r_ohm_per_km * l / p / Zni,", "rft_pu=l * line_.r_ohm_per_km / (p * Zni),")), None),
     ]
